@@ -73,6 +73,18 @@ def const_query(l, stale=None):
 DB_CONST = ["db.q uuid", "db.q version_name", "db.q directory", "db.q verify"]
 
 
+def moved_subtree_probe(mk):
+    """a crate moved together with its sub-tree, then re-parented under its own (moved) grandchild: must be refused;
+    a library that accepts it has a parent cycle (1.x: unbounded update_path recursion, 2.x: the recursive view)"""
+    return ["mkroot zp1 7a7031", "mksub zp2 zp1 7a7032", "mksub zp3 zp2 7a7033", "mkroot zp4 7a7034",
+            "setparent zp2 zp4", "setparent zp4 zp3", "rename zp4 7a7035", "crate.q zp4 descendants",
+            "crate.q zp3 children",
+            # a non-last crate moved into a parent without children, then that parent's children are listed
+            # (2.x: the new sibling list must have a tail, or sort_ids dereferences end())
+            "mkroot zq1 7a7131", "mkroot zq2 7a7132", "mksub zq3 zq1 7a7133", "mksub zq4 zq1 7a7134",
+            "setparent zq3 zq2", "crate.q zq2 children", "crate.q zq1 children", "db.q root_crates"]
+
+
 def run_pair(scripts, watchdog=15):
     hres = runner.run_harness(scripts, watchdog=watchdog, stateless=False)
     mres = runner.run_model(scripts)
